@@ -2,7 +2,7 @@
    pre-state of one twin-replica case (harness/cmd/failtx) and compares with what
    the two real replicas showed.
 
-   Input  (pre_nonce, pre_bal, min_bal, decoded, known, tx_nonce, fee, gas, size,
+   Input  (min_gas_price, pre_nonce, pre_bal, min_bal, decoded, known, tx_nonce, fee, gas, size,
            byte_cost, handler_costs, hkind)
      pre_nonce/pre_bal : the signer's account on the replica WITHOUT the transaction
      decoded           : mux.decodeTx succeeds (computed by the harness with the library)
@@ -28,12 +28,12 @@ Definition handler (costs : list N) (hkind : N) : prog :=
      else if hkind =? 1 then Tx (Put OTHER (VRaw 99) (Del SIGNER (Ret (Err 100)))) Ret
      else Put OTHER (VRaw 99) (Ret Ok)).
 
-Definition kcase := (N * N * N * bool * bool * N * N * N * N * N * list N * N)%type.
+Definition kcase := (N * N * N * N * bool * bool * N * N * N * N * N * list N * N)%type.
 Definition kobs := (bool * bool * N * N * N * bool)%type.
 
 Definition run_case (c : kcase) : kobs :=
-  let '(pre_nonce, pre_bal, min_bal, decoded, known, txn, fee, gas, size, byte_cost, costs, hkind) := c in
-  let P := mkP min_bal byte_cost 0 0 (fun _ => false) in
+  let '(min_price, pre_nonce, pre_bal, min_bal, decoded, known, txn, fee, gas, size, byte_cost, costs, hkind) := c in
+  let P := mkP min_bal byte_cost min_price 0 (fun _ => false) in
   let s := mkM (mkT [(SIGNER, VAcct (mkAcct pre_nonce pre_bal 5)); (OTHER, VRaw 7)] [[]]) 0 [] in
   let x := mkTx SIGNER txn fee gas 0 false 0 in
   let exec := fun (_ : mode) (_ : tx) => if known then Some (run (handler costs hkind)) else None in
